@@ -250,6 +250,21 @@ func TestVerifThresholdRSA(t *testing.T) {
 			}
 		}
 	}
+	// public exponents other than 65537 (the scheme needs a prime e > l):
+	// 7, 11 and 65539
+	for _, ek := range []struct {
+		name string
+		lks  [][2]int
+	}{
+		{"plain-2048-e7", [][2]int{{3, 2}, {5, 3}, {6, 6}}},
+		{"plain-2048-e11", [][2]int{{3, 2}, {10, 5}, {7, 7}}},
+		{"plain-2048-e65539", [][2]int{{3, 2}, {12, 5}}},
+	} {
+		key := loadKey(t, ek.name)
+		for li, lk := range ek.lks {
+			cases = append(cases, tssCase{key: key, l: lk[0], k: lk[1], pad: pads[li%2], exhaustive: lk[0] <= 5})
+		}
+	}
 	for i := range cases {
 		cases[i].idx = i
 	}
